@@ -668,7 +668,8 @@ def explore(fn, bound=4, maxpaths=20000, stats=None, on_path=None, deadline_s=No
     """Run fn(ctx) once per feasible path.  Returns [(ctx, out)]; cuts are counted.
     on_path(ctx, out) is called right after each completed path while its solver is live;
     returning "stop" ends the exploration early (used once violations have been found).
-    deadline_s: wall-clock budget; exceeding it is Inconclusive (never a pass)."""
+    deadline_s: wall-clock budget of the item; when it is used up the unexplored remainder is a counted cut
+    ("time-budget"); exceeding it before a single path completed is Inconclusive."""
     st = Stats()
     stack = [[]]
     results = []
@@ -699,10 +700,16 @@ def explore(fn, bound=4, maxpaths=20000, stats=None, on_path=None, deadline_s=No
             if stats is not None:
                 stats.add(st)
             raise Inconclusive(f"path budget exceeded ({maxpaths})")
-        if deadline_s is not None and time.time() - t0 > deadline_s:
-            if stats is not None:
-                stats.add(st)
-            raise Inconclusive(f"time budget exceeded ({deadline_s}s) after {st.paths} paths")
+        if deadline_s is not None and time.time() - t0 > deadline_s and stack:
+            if st.paths == 0:
+                if stats is not None:
+                    stats.add(st)
+                raise Inconclusive(f"time budget exceeded ({deadline_s}s) before any path was completed")
+            # wall-clock budget of this item used up: what was explored stands, the remaining paths are a counted cut
+            # ("time-budget": outside what this run explored; never counted as discharged)
+            st.cuts += len(stack)
+            st.cut_reasons["time-budget"] = st.cut_reasons.get("time-budget", 0) + len(stack)
+            break
     if stats is not None:
         stats.add(st)
     if st.paths == 0 and st.cuts > 0 and not stopped:
